@@ -164,6 +164,7 @@ func c16(r *core.Run) {
 	c16Walk(r)
 	c16Handle(r)
 	c16Attr(r)
+	c16Exit(r)
 }
 
 // goroutine bodies: closures passed to (*errgroup.Group).Go or started with go
@@ -753,6 +754,128 @@ func c16Attr(r *core.Run) {
 		})
 	}
 	r.Floor("C16.ATTR", "Line/Filename attributions", n, 2)
+	// ... and the report carries that attribution on: File and Line of a reported function come from the function's
+	// own result, not from the file that happens to be processed (a package has several files)
+	nRep := 0
+	for _, fn := range p.FuncsIn("internal/cli") {
+		core.InstrsOf(fn, func(in ssa.Instruction) {
+			st, ok := in.(*ssa.Store)
+			if !ok {
+				return
+			}
+			fa, ok := st.Addr.(*ssa.FieldAddr)
+			if !ok || !strings.Contains(core.Deref(fa.X.Type()).String(), "/pkg/models.Function") {
+				return
+			}
+			f := core.FieldName(fa.X.Type(), fa.Field)
+			want := map[string]string{"File": "Filename", "Line": "Line"}[f]
+			if want == "" {
+				return
+			}
+			nRep++
+			okAll := true
+			for _, o := range core.Origins(st.Val) {
+				base, name, isF := fieldLoadBy(o, func(types.Type) bool { return true })
+				if !isF || name != want || !strings.HasSuffix(core.Deref(base.Type()).String(), "diff.FingerprintResult") {
+					okAll = false
+				}
+			}
+			r.Check(okAll, "C16.ATTR", core.FuncName(fn)+"#report."+f, st.Pos(), "the reported "+f+" is the fingerprint result's own "+want, "the reported "+f+" of a function is "+core.Canon(st.Val)+", not the "+want+" of its fingerprint result: functions of sibling files of the package are reported under the file being processed")
+		})
+	}
+	r.Floor("C16.ATTR", "File/Line fields of reported functions", nRep, 2)
+}
+
+// c16Exit: the command's entry point turns a failure into a failing exit status: from the error-is-set edge of an
+// error test in main (or a result-less closure of the main package), the first os.Exit reached has a non-zero
+// constant argument, and the function does not simply return.
+func c16Exit(r *core.Run) {
+	p := r.P
+	n := 0
+	for _, fn := range p.FuncsIn("cmd/sfw") {
+		if len(resultTypes(fn)) != 0 || fn.Blocks == nil {
+			continue
+		}
+		// a helper that prints and exits: an os.Exit with a non-zero constant dominates all its returns
+		exitHelper := func(g *ssa.Function) bool {
+			if g == nil || g.Blocks == nil || !p.IsProdFunc(g) {
+				return false
+			}
+			var eb *ssa.BasicBlock
+			core.InstrsOf(g, func(in ssa.Instruction) {
+				if c := core.CallOf(in); c != nil && core.CalleeName(c) == "os.Exit" {
+					if k, isK := core.ConstInt(c.Args[0]); isK && k != 0 {
+						eb = in.Block()
+					}
+				}
+			})
+			if eb == nil {
+				return false
+			}
+			for _, ret := range core.Returns(g) {
+				if ret.Block() != eb && !eb.Dominates(ret.Block()) {
+					return false
+				}
+			}
+			return true
+		}
+		exitArg := func(b *ssa.BasicBlock) (int64, bool, bool) {
+			for _, in := range b.Instrs {
+				if c := core.CallOf(in); c != nil && core.CalleeName(c) == "os.Exit" {
+					k, isK := core.ConstInt(c.Args[0])
+					return k, isK, true
+				}
+				if c := core.CallOf(in); c != nil && exitHelper(core.StaticCallee(c)) {
+					return 1, true, true
+				}
+			}
+			return 0, false, false
+		}
+		for _, b := range fn.Blocks {
+			if len(b.Instrs) == 0 {
+				continue
+			}
+			ifi, ok := b.Instrs[len(b.Instrs)-1].(*ssa.If)
+			if !ok {
+				continue
+			}
+			x, nonNilOnTrue, okN := core.NilCompare(ifi.Cond)
+			if !okN || x.Type().String() != "error" {
+				continue
+			}
+			idx := 1
+			if nonNilOnTrue {
+				idx = 0
+			}
+			n++
+			bad := ""
+			seen := map[*ssa.BasicBlock]bool{}
+			work := []*ssa.BasicBlock{b.Succs[idx]}
+			for len(work) > 0 && bad == "" {
+				cur := work[len(work)-1]
+				work = work[:len(work)-1]
+				if seen[cur] {
+					continue
+				}
+				seen[cur] = true
+				if k, isK, has := exitArg(cur); has {
+					if !isK || k == 0 {
+						bad = "reaches os.Exit(0)"
+					}
+					continue // the process ends here
+				}
+				if _, isRet := cur.Instrs[len(cur.Instrs)-1].(*ssa.Return); isRet {
+					bad = "returns normally (exit status 0)"
+				}
+				if _, isPanic := cur.Instrs[len(cur.Instrs)-1].(*ssa.Panic); isPanic {
+					continue
+				}
+				work = append(work, cur.Succs...)
+			}
+			r.Check(bad == "", "C16.STRICT", core.FuncName(fn)+"#failure-exits-nonzero", ifi.Pos(), "after an error the process exits with a non-zero status", "after an error the entry point "+bad+": a strict run over an unanalysable file (reported by the sandboxed worker) ends with exit status 0")
+		}
+	}
+	r.Floor("C16.STRICT", "error tests in the command's entry points", n, 1)
 }
 
 var memberGuardShapes = []*regexp.Regexp{
